@@ -110,8 +110,9 @@ Section Claims.
     exists Fs, (ATbl L). split; [cbn [abs_item]; rewrite Eabs; reflexivity|].
     split; [destruct Hwf as [H1 H2]; constructor; assumption|].
     split; [exact Etab|]. split.
-    - eapply Forall_impl; [|exact Hok]. intros f Hf. eapply f_ok_mono; [| |exact Hf]; [|lia].
-      rewrite app_length. cbn [length item_hdepth]. lia.
+    - eapply Forall_impl; [|exact Hok]. intros f Hf. eapply f_ok_mono; [| |exact Hf].
+      + rewrite app_length. cbn [length item_hdepth]. lia.
+      + cbn [item_vdepth]. lia.
     - rewrite Estm, hdr_stmt_snoc, node_stmts_tbl. reflexivity.
   Qed.
 
@@ -168,7 +169,7 @@ Section Claims.
         destruct (Hc0 P k HP Hk0) as (Fs1 & n & En & Wn & Tn & On & Sn).
         exists (Fs1 ++ Fs2), ((k, n) :: L2). cbn [flat_map map fst snd].
         split; [rewrite En, E2; reflexivity|]. split; [rewrite K2; reflexivity|]. split; [constructor; assumption|].
-        split; [rewrite <- map_app, Tn, T2, map_app; reflexivity|]. split.
+        split; [rewrite map_app in Tn; cbn [map] in Tn; rewrite Tn, T2, map_app; reflexivity|]. split.
         + apply Forall_app. split; [|exact O2].
           eapply Forall_impl; [|exact On]. intros f Hf. eapply f_ok_mono; [| |exact Hf].
           * unfold hb. rewrite hdepth_the.
@@ -179,7 +180,7 @@ Section Claims.
             cbn [snd] in H. lia.
         + split; [rewrite flat_map_app, Sn, S2; reflexivity|].
           unfold kv_stmts, val_stmts in *. cbn [flat_map fst snd]. rewrite V2. f_equal.
-          destruct it as [|v|sub|ts sp0]; cbn [abs_item] in En; injection En as <-; reflexivity. }
+          destruct it as [|v|sub|ts sp0]; cbn [abs_item] in En; try discriminate; injection En as <-; reflexivity. }
     destruct (G l (fun kv H => H) Hk Hcl) as (Fsub & L & E & K & W & Tt & O & S & V).
     exists (mkF P a l pos :: Fsub), L.
     split; [rewrite abs_tbl_the; exact E|].
@@ -206,3 +207,180 @@ Section Claims.
     - exact claim_entries.
   Qed.
 End Claims.
+
+(* ---- from the specification tree back to the abstract tree of Model/Build.v ------------------------------------------ *)
+Fixpoint conv_node (n : D.node aval) : anode :=
+  match n with
+  | D.NVal a => AVal a
+  | D.NTab _ c => ATbl (map (fun kn => (fst kn, conv_node (snd kn))) c)
+  | D.NAot es => AAot (map (map (fun kn => (fst kn, conv_node (snd kn)))) es)
+  end.
+Definition conv (t : D.stree aval) : list (bytes * anode) := map (fun kn => (fst kn, conv_node (snd kn))) t.
+
+Lemma conv_app a b : conv (a ++ b) = conv a ++ conv b.
+Proof. unfold conv. apply map_app. Qed.
+
+Lemma conv_kv_res l : conv (kv_res l) = val_entries l.
+Proof.
+  unfold kv_res, val_entries. induction l as [|[k n] l IH]; [reflexivity|]. cbn [flat_map fst snd].
+  rewrite conv_app, IH. destruct n; reflexivity.
+Qed.
+
+Lemma conv_node_res : forall n, map conv_node (node_res n) = printed_node n.
+Proof.
+  fix IH 1. intros [a|l|ls].
+  - reflexivity.
+  - cbn [node_res printed_node map conv_node]. f_equal. f_equal.
+    change (map (fun kn => (fst kn, conv_node (snd kn))) ?X) with (conv X). rewrite conv_app, conv_kv_res. f_equal.
+    induction l as [|[k n] l IHl]; [reflexivity|]. cbn [flat_map fst snd]. rewrite conv_app, IHl. f_equal.
+    unfold conv. rewrite map_map. cbn [fst snd]. rewrite <- (IH n), map_map. reflexivity.
+  - assert (G : forall l, map (fun kn => (fst kn, conv_node (snd kn))) (body_res l) = printed_entries l).
+    { intro l. unfold body_res, printed_entries.
+      change (map (fun kn => (fst kn, conv_node (snd kn))) ?X) with (conv X). rewrite conv_app, conv_kv_res. f_equal.
+      induction l as [|[k n] l IHl]; [reflexivity|]. cbn [flat_map fst snd]. rewrite conv_app, IHl. f_equal.
+      unfold conv. rewrite map_map. cbn [fst snd]. rewrite <- (IH n), map_map. reflexivity. }
+    rewrite node_res_aot.
+    assert (Ep : printed_node (AAot ls) = match ls with [] => [] | _ => [AAot (map printed_entries ls)] end)
+      by (destruct ls; reflexivity).
+    rewrite Ep. destruct ls as [|l0 ls]; [reflexivity|]. generalize (l0 :: ls). intro LS.
+    cbn [map conv_node]. f_equal. f_equal. rewrite map_map.
+    induction LS as [|l LS IHLS]; [reflexivity|]. cbn [map]. rewrite G, IHLS. reflexivity.
+Qed.
+
+Lemma conv_body_res l : conv (body_res l) = printed_entries l.
+Proof.
+  unfold body_res, printed_entries. rewrite conv_app, conv_kv_res. f_equal.
+  induction l as [|[k n] l IHl]; [reflexivity|]. cbn [flat_map fst snd]. rewrite conv_app, IHl. f_equal.
+  unfold conv. rewrite map_map. cbn [fst snd]. rewrite <- (conv_node_res n), map_map. reflexivity.
+Qed.
+
+(* the two abstractions of a parsed tree agree (it holds no Item::None) *)
+Lemma abs_conv : forall t, DB.mok_tbl t = true -> abs_tbl t = conv (map_tree abs_value (DB.abs_tbl t)).
+Proof.
+  fix IHt 1. intros [items d im dt p sp] Hm.
+  rewrite DB.abs_tbl_eq, DB.mok_tbl_eq in *. cbn [t_items abs_tbl] in *. unfold DB.abs_items, DB.mok_items in *.
+  induction items as [|[k it] items IHi]; [reflexivity|].
+  cbn [forallb snd] in Hm. apply andb_true_iff in Hm as [Hit Hrest].
+  assert (Eit : abs_item it = [conv_node (map_node abs_value (DB.abs_item it))]).
+  { destruct it as [|v|sub|ts sp0]; [cbn [DB.mok_item] in Hit; discriminate|reflexivity| |].
+    - cbn [DB.mok_item] in Hit. cbn [abs_item DB.abs_item map_node conv_node]. do 2 f_equal. apply (IHt sub Hit).
+    - rewrite DB.mok_item_aot in Hit. rewrite DB.abs_item_aot. cbn [abs_item map_node conv_node]. do 2 f_equal.
+      rewrite !map_map. induction ts as [|t0 ts IHts]; [reflexivity|]. cbn [forallb map] in *.
+      apply andb_true_iff in Hit as [H0 Hts]. unfold DB.mok_elem in H0. apply andb_true_iff in H0 as [_ H0].
+      rewrite (IHts Hts). f_equal. apply (IHt t0 H0). }
+  cbn [flat_map map]. rewrite (IHi Hrest), Eit. reflexivity.
+Qed.
+
+(* ---- Display for DocumentMut on a constructed document, as lines -------------------------------------------------------- *)
+Section Doc.
+  Variable ftext : fval -> bytes.
+  Local Notation PS := (leaf_ok ftext).
+  Local Notation PK := key_ok.
+
+  Fixpoint tables_lines (Fs : list ftab) (first : bool) : list dline :=
+    match Fs with
+    | [] => []
+    | f :: tl => table_lines (f_P f) (f_a f) first (f_l f) ++ tables_lines tl (table_first (f_P f) first (f_l f))
+    end.
+
+  Lemma visit_tables_flat Fs : Forall (fun f => entries_flat PS PK (f_l f)) Fs -> forall first,
+    visit_tables (map (fun x => (0%N, x)) (map (r3 ftext) (map f_tbl Fs))) first = lines_txt ftext (tables_lines Fs first).
+  Proof.
+    induction 1 as [|f Fs Hf _ IH]; intro first; [reflexivity|].
+    cbn [map visit_tables f_tbl r3 fst snd tables_lines].
+    rewrite (visit_table_flat ftext PS PK (f_P f) (f_a f) first (f_l f) (f_pos f) Hf).
+    rewrite lines_txt_app, IH. reflexivity.
+  Qed.
+
+  Lemma lines_stmts_app a b : lines_stmts (a ++ b) = lines_stmts a ++ lines_stmts b.
+  Proof. unfold lines_stmts. apply flat_map_app. Qed.
+
+  Lemma val_lines_stmts l : lines_stmts (val_lines l) = val_stmts l.
+  Proof.
+    unfold val_lines, val_stmts. induction l as [|[k it] l IH]; [reflexivity|]. cbn [flat_map fst snd].
+    rewrite lines_stmts_app, IH. destruct it; reflexivity.
+  Qed.
+
+  Lemma tables_lines_stmts Fs : forall first, lines_stmts (tables_lines Fs first) = flat_map ftab_stmts Fs.
+  Proof.
+    induction Fs as [|f Fs IH]; intro first; [reflexivity|]. cbn [tables_lines flat_map].
+    rewrite lines_stmts_app, IH. f_equal. unfold table_lines, ftab_stmts, hdr_stmt.
+    rewrite lines_stmts_app, val_lines_stmts. f_equal.
+    destruct (f_P f) as [|k0 P']; [reflexivity|]. destruct first, (f_a f); reflexivity.
+  Qed.
+
+  Lemma tables_lines_ok hb vb Fs : hb < LIMIT -> vb < LIMIT -> Forall (f_ok PS PK hb vb) Fs ->
+    forall first, Forall (line_ok ftext) (tables_lines Fs first).
+  Proof.
+    intros Hh Hv. induction 1 as [|f Fs Hf _ IH]; intro first; [constructor|]. cbn [tables_lines].
+    apply Forall_app. split; [|apply IH].
+    destruct Hf as (Hflat & _ & HP & Hkeys & Hlen & Hdep). unfold table_lines. apply Forall_app. split.
+    - destruct (f_P f) as [|k0 P'] eqn:EP; [constructor|]. apply Forall_app. split; [destruct first; repeat constructor|].
+      constructor; [|constructor]. cbn [line_ok]. split; [discriminate|]. split; [exact HP|]. lia.
+    - unfold val_lines. apply Forall_forall. intros ln Hin. apply in_flat_map in Hin as ([k it] & Hkv & Hln). cbn [fst snd] in Hln.
+      destruct it as [|v|sub|ts sp0]; try contradiction. destruct Hln as [<-|[]]. cbn [line_ok].
+      split; [rewrite Forall_forall in Hkeys; apply Hkeys; apply (in_map fst) in Hkv; exact Hkv|].
+      split; [exact (Hflat k (IValue v) Hkv)|]. specialize (Hdep k v Hkv). lia.
+  Qed.
+
+  (* C06_document *)
+  Theorem built_document_roundtrip t :
+    BuiltTbl PS PK t -> tbl_hdepth t < LIMIT -> tbl_vdepth t < LIMIT ->
+    exists d, parse_document (display_document (render_tbl ftext t) REmpty) = POk d
+              /\ abs_tbl (doc_root d) = printed_entries (abs_tbl t).
+  Proof.
+    intros (l & pos & Hl & Hpos & ->) Hh Hv. fold (the_tbl l pos) in *.
+    destruct (flat_claims PS PK) as [_ Hent].
+    destruct (Hent l Hl [] false pos Hpos (Forall_nil _)) as (Fs & L & Eabs & Hwf & Etab & Hok & Estm).
+    cbn [length Nat.add hdr_stmt app map] in *.
+    (* the printed text *)
+    assert (Etxt : display_document (render_tbl ftext (the_tbl l pos)) REmpty = lines_txt ftext (tables_lines Fs true)).
+    { unfold display_document.
+      rewrite nested_tables_eq by lia. rewrite tbl_tables_render, Etab.
+      rewrite assign_positions_zero.
+      2:{ apply Forall_forall. intros x Hx. apply in_map_iff in Hx as (y & <- & Hy). apply in_map_iff in Hy as (f & <- & Hf).
+          rewrite Forall_forall in Hok. destruct (Hok f Hf) as (_ & Hp & _). unfold pos_ok, r3, f_tbl. cbn [fst snd]. exact Hp. }
+      rewrite stable_sort_zero by (apply Forall_forall; intros y Hy; apply in_map_iff in Hy as (x & <- & _); reflexivity).
+      rewrite visit_tables_flat.
+      2:{ eapply Forall_impl; [|exact Hok]. intros f (Hf & _). exact Hf. }
+      assert (Ed : t_decor (render_tbl ftext (the_tbl l pos)) = decor_default) by reflexivity. rewrite Ed.
+      unfold decor_prefix, decor_suffix. cbn. rewrite !app_nil_r. reflexivity. }
+    rewrite Etxt.
+    destruct (doc_fold L Hwf) as (cur' & Efold).
+    destruct (parse_lines ftext (tables_lines Fs true) (body_res L) cur') as (d & Ed & Hmok & Habs).
+    - apply (tables_lines_ok _ _ Fs Hh Hv Hok).
+    - rewrite tables_lines_stmts, Estm. exact Efold.
+    - exists d. split; [exact Ed|]. rewrite (abs_conv _ Hmok), Habs, conv_body_res, Eabs. reflexivity.
+  Qed.
+End Doc.
+
+(* ---- with the leaves discharged -------------------------------------------------------------------------------------- *)
+From TV Require Import Proofs.BuiltRTWF.
+
+Lemma Built_mono (PS PS' : scalar -> Prop) (PK PK' : bytes -> Prop) :
+  (forall s, PS s -> PS' s) -> (forall k, PK k -> PK' k) ->
+  (forall it, BuiltItem PS PK it -> BuiltItem PS' PK' it) /\ (forall l, BuiltEntries PS PK l -> BuiltEntries PS' PK' l).
+Proof.
+  intros HS HK. apply Built_strong.
+  - intros v Hv. constructor. apply (BuiltValue_mono PS PS' PK PK' HS HK v Hv).
+  - intros l _ Hl. constructor. exact Hl.
+  - intros ls _ Hls. constructor. exact Hls.
+  - intros l Hnd Hk _ IH. constructor; [exact Hnd| |exact IH]. rewrite Forall_forall in *. auto.
+Qed.
+
+Theorem document_roundtrip t :
+  BuiltTbl scalar_ok key_ok t -> tbl_hdepth t < LIMIT -> tbl_vdepth t < LIMIT ->
+  exists d, parse_document (display_document (render_tbl float_text t) REmpty) = POk d
+            /\ abs_tbl (doc_root d) = printed_entries (abs_tbl t).
+Proof.
+  intros (l & pos & Hl & Hpos & ->) Hh Hv. apply built_document_roundtrip; [|exact Hh|exact Hv].
+  exists l, pos. split; [|auto].
+  apply (proj2 (Built_mono scalar_ok (leaf_ok float_text) key_ok key_ok scalar_leaf (fun k H => H))), Hl.
+Qed.
+
+Theorem constructed_document_roundtrip from_table l :
+  centries_ok scalar_ok key_ok l ->
+  tbl_hdepth (eval_doc from_table l) < LIMIT -> tbl_vdepth (eval_doc from_table l) < LIMIT ->
+  exists d, parse_document (display_document (render_tbl float_text (eval_doc from_table l)) REmpty) = POk d
+            /\ abs_tbl (doc_root d) = printed_entries (abs_tbl (eval_doc from_table l)).
+Proof. intros Hl Hh Hv. apply document_roundtrip; [apply eval_doc_built, Hl|exact Hh|exact Hv]. Qed.
